@@ -132,6 +132,22 @@ def c04(tier):
                 note="utils::flatten/unflatten + melda.rs update / update_object / delete_object / create_object / read / commit from MIR")
 
 
+def c13(tier):
+    combos = [(4, 0)] if tier == "quick" else [(4, 0), (4, 1), (8, 0)]
+    jobs = [Job("h_hist::commit_graph", c, dict(S2), budget_s=3000, validate=30) for c in combos]
+    return dict(jobs=jobs, bounds={"history": "c1 <- cA (replica a), c1 <- cB (replica b), merge commit {cA,cB} <- cM, cM <- c5; documents among the first k element orders; commit metadata with a symbolic printable char, nested object, empty object and None",
+                                   "combos [k, symbolic values]": [list(c) for c in combos]},
+                assumptions=S2_ASSUME, note="melda.rs commit / get_anchors / get_delta / load_raw_delta / reload_until / DeltaId from MIR")
+
+
+def c14(tier):
+    combos = [(4, 0)] if tier == "quick" else [(4, 0), (4, 1), (8, 0)]
+    jobs = [Job("h_hist::time_travel", c, dict(S2), budget_s=3000, validate=30) for c in combos]
+    return dict(jobs=jobs, bounds={"history": "as C13 (5 blocks, one concurrent pair, one merge commit); every head set replica a ever had (single heads and the two-head set after the merge) is travelled to",
+                                   "combos [k, symbolic values]": [list(c) for c in combos]},
+                assumptions=S2_ASSUME, note="melda.rs reload_until / new_until / reload / get_value / get_parent_revision from MIR")
+
+
 def c07(tier):
     jobs = [Job("h_c07::resolve_object", (0,), dict(S2), budget_s=3000, validate=30),
             Job("h_c07::resolve_both", (), dict(S2), budget_s=3000, validate=30)]
@@ -159,4 +175,4 @@ def c10(tier):
                 note="melda.rs reload / fetch_raw_delta / load_raw_delta / check_delta, datastorage.rs try_load_pack / read_raw_value from MIR")
 
 
-PROPS = {"C04": c04, "C07": c07, "C10": c10, "C08": c08, "C03": c03, "C06": c06, "C16": c16, "C19": c19, "C05": c05, "C15": c15}
+PROPS = {"C04": c04, "C13": c13, "C14": c14, "C07": c07, "C10": c10, "C08": c08, "C03": c03, "C06": c06, "C16": c16, "C19": c19, "C05": c05, "C15": c15}
